@@ -241,7 +241,7 @@ theorem maybeSendAppend_outcome (to : Id) (b : Bool) (r r' : Raft) (res : Bool)
           · exact Or.inr (Or.inr ⟨h1, hp, h2, prevTerm, [], pr', rfl, Or.inl (by simp),
               fun _ _ => rfl, h3, h4, h5⟩)
 
-/-- every follower's inflight window satisfies `count ≤ size` -/
+/-- every follower's inflight window is well-formed (`count ≤ size` and the byte rule) -/
 def WindowsOK (r : Raft) : Prop := ∀ id pr, r.trk.getProgress id = some pr → pr.inflights.WF
 
 /-- what a sequence of append attempts may do to the state: the configuration is untouched, messages
